@@ -190,7 +190,7 @@ pub fn main(a: &Args) {
                 if (vi as u64) % stride != (seed % stride) && values.len() > 2 && vi != 0 {
                     continue;
                 }
-                for presence in 0..2 {
+                for presence in 0..3 {
                     n += 1;
                     if n % nshards != shard {
                         continue;
@@ -219,7 +219,16 @@ pub fn main(a: &Args) {
                             other => other,
                         }
                     };
-                    let explicit: Option<Variant> = if presence == 1 { norm(g.gen(&mut r, new_travel.declared_ty)) } else { None };
+                    // presence 2: the explicit value is exactly the database default of the new property - a value a reader or
+                    // writer might mistake for "nothing was set here"
+                    let explicit: Option<Variant> = match presence {
+                        1 => norm(g.gen(&mut r, new_travel.declared_ty)),
+                        2 => match crate::dbwalk::default_for(crate::dbwalk::db(), &class, &m.new_name).cloned().filter(|d| d.ty() == new_travel.declared_ty) {
+                            Some(d) => norm(Some(d)),
+                            None => continue,
+                        },
+                        _ => None,
+                    };
                     // the neighbouring instance that carries both spellings (another legacy value where there is one)
                     let ctx_legacy = values[if vi == 0 { 1 % values.len() } else { 0 }].clone();
                     let mut ctx = vec![(m.legacy.clone(), ctx_legacy)];
@@ -246,14 +255,14 @@ pub fn main(a: &Args) {
                         }
                     }
                     rep.evaluations += 1;
-                    rep.count(&format!("cases.{}.{}", m.legacy, if presence == 1 { "explicit-new" } else { "legacy-only" }));
+                    rep.count(&format!("cases.{}.{}", m.legacy, if presence == 2 { "explicit-new-equal-to-default" } else if presence == 1 { "explicit-new" } else { "legacy-only" }));
                     let lvd: String = format!("{:?}", lv).chars().take(80).collect();
                     let sigv = match lv {
                         Variant::Enum(e) => format!("{}={}", m.legacy, e.to_u32()),
                         _ => m.legacy.clone(),
                     };
-                    let label = format!("{}.{}={} {}", class, m.legacy, lvd, if presence == 1 { "+explicit" } else { "" });
-                    let replay = json!({"cmd": "c15", "class": class, "legacy": m.legacy, "value": lvd, "explicit": presence == 1, "seed": seed, "n": n});
+                    let label = format!("{}.{}={} {}", class, m.legacy, lvd, if presence >= 1 { "+explicit" } else { "" });
+                    let replay = json!({"cmd": "c15", "class": class, "legacy": m.legacy, "value": lvd, "explicit": presence >= 1, "seed": seed, "n": n});
                     rep.nontrivial(crate::rng::fnv64(label.as_bytes()));
                     rep.sample(json!({"case": label}));
                     let no = |_: Ref| J::Null;
